@@ -216,6 +216,10 @@ def specs(ctx):
             add(workers=workers, shape=shape(), source="hdf5", opts=draw_opts(progress=True))
             add(RND, workers=workers, shape=(80, 30), opts=draw_opts(progress=True))
             add(workers=workers, shape=shape(), patch=rng.choice(["centers", "name"]), opts=dict(progress=False, degrees=False))
+        # coordinates handed over in radians (display off): a non-finite value at every position, both modes
+        for pos in positions:
+            for workers in ([1, pw()] if not full else workers_list):
+                with_twin(reader_fault("value", pos, workers, opts=dict(progress=False, degrees=False)))
         # the progress display while a valid catalog is being overwritten / has to stay
         for j, pos in enumerate(positions):
             for workers in (workers_list if full else [1, pw()]):
